@@ -12,7 +12,7 @@
 
    With either edge the type-rank descent fails. *)
 From Coq Require Import List NArith Arith Bool Lia.
-From DesVerif Require Import Own.Heap Own.Frame Own.Inv Own.Shape Own.Rank Own.Check Own.Cycle Own.World Own.Model.
+From DesVerif Require Import Own.Heap Own.Frame Own.Inv Own.Shape Own.Rank Own.Check Own.Cycle Own.Safe Own.World Own.Model.
 Import ListNotations.
 Local Open Scope nat_scope.
 
@@ -47,7 +47,7 @@ Qed.
    owned -- yet after the Sim, the remaining events and the caller's handles are dropped,
    three messages are still alive, and so is the channel *)
 Definition f14_script : list N := [2; 3; 0; 0;  1;  0;0;5;0;0;0;0;0;2;0;  1; 0;0;0;1;1;  0]%N.
-Definition f14_st : st := Eval vm_compute in w_st (fst (fst (stop_state true f14_script))).
+Definition f14_st : st := Eval vm_compute in fst (fst (stop_state true f14_script)).
 Definition f14_roots : list nat := Eval vm_compute in snd (fst (stop_state true f14_script)).
 Definition f14_after : heap := Eval vm_compute in hp (release_all f14_st f14_roots).
 
@@ -63,14 +63,14 @@ Qed.
 
 (* the witness is the state the model reaches for the script above *)
 Lemma C20_pinned_witness_is_reached :
-  w_st (fst (fst (stop_state true f14_script))) = f14_st /\ snd (fst (stop_state true f14_script)) = f14_roots /\
+  fst (fst (stop_state true f14_script)) = f14_st /\ snd (fst (stop_state true f14_script)) = f14_roots /\
   alive_users f14_after = 3%N.
 Proof. vm_compute. repeat split; reflexivity. Qed.
 
 (* the same script on the current schema: nothing user-visible stays alive *)
 Lemma C20_fixed_schema_same_script_releases :
-  goodb false (w_st (fst (fst (stop_state false f14_script)))) (snd (fst (stop_state false f14_script))) = true /\
-  alive_users (hp (release_all (w_st (fst (fst (stop_state false f14_script)))) (snd (fst (stop_state false f14_script))))) = 0%N.
+  goodb false (fst (fst (stop_state false f14_script))) (snd (fst (stop_state false f14_script))) = true /\
+  alive_users (hp (release_all (fst (fst (stop_state false f14_script))) (snd (fst (stop_state false f14_script))))) = 0%N.
 Proof. vm_compute. split; reflexivity. Qed.
 
 (* Timer cycle, general form: in any count-consistent heap, a queue that lists a slot as
@@ -83,7 +83,7 @@ Proof. exact timer_pair_survives. Qed.
    timer fires (max_itr(0)).  Pinned schema: the queue and the slot stay allocated although
    nothing user-visible does. *)
 Definition timer_script : list N := [2; 0; 0; 0;  1;  0;0;0;0;1;1000;0;0;0;0;0;  0;  0]%N.
-Definition timer_st : st := Eval vm_compute in w_st (fst (fst (stop_state true timer_script))).
+Definition timer_st : st := Eval vm_compute in fst (fst (stop_state true timer_script)).
 Definition timer_roots : list nat := Eval vm_compute in snd (fst (stop_state true timer_script)).
 Definition timer_after : heap := Eval vm_compute in hp (release_all timer_st timer_roots).
 
@@ -99,11 +99,11 @@ Proof.
 Qed.
 
 Lemma C20_pinned_timer_witness_is_reached :
-  w_st (fst (fst (stop_state true timer_script))) = timer_st /\ snd (fst (stop_state true timer_script)) = timer_roots.
+  fst (fst (stop_state true timer_script)) = timer_st /\ snd (fst (stop_state true timer_script)) = timer_roots.
 Proof. vm_compute. split; reflexivity. Qed.
 
 (* the same script on the current schema: the checker accepts and no object at all is left *)
 Lemma C20_fixed_schema_timer_script_releases :
-  goodb false (w_st (fst (fst (stop_state false timer_script)))) (snd (fst (stop_state false timer_script))) = true /\
-  existsb live (hp (release_all (w_st (fst (fst (stop_state false timer_script)))) (snd (fst (stop_state false timer_script))))) = false.
+  goodb false (fst (fst (stop_state false timer_script))) (snd (fst (stop_state false timer_script))) = true /\
+  existsb live (hp (release_all (fst (fst (stop_state false timer_script))) (snd (fst (stop_state false timer_script))))) = false.
 Proof. vm_compute. split; reflexivity. Qed.
